@@ -166,12 +166,15 @@ def search(rep, br, tier, seed):
     """obligations or correspondence broken and the sweep of `explore` met no violation: widen it
     (other seed, all addresses, cross products), judged by the Spec oracle on the real code."""
     rng = random.Random(seed ^ 0x5EED)
-    intro = IC.introspect()
-    cases = build_cases(intro, rng, "quick", big=(tier != "thorough"))
-    IC.run_cases(cases)
-    rep.add_eval(len(cases))
-    n = judge_cases(rep, cases, "search")
-    rep.notes.append(f"search: {len(cases)} further end-to-end cases judged by Spec.decode/expect, {n} violations")
+    try:
+        intro = IC.introspect()
+        cases = build_cases(intro, rng, "quick", big=(tier != "thorough"))
+        IC.run_cases(cases)
+        rep.add_eval(len(cases))
+        n = judge_cases(rep, cases, "search")
+        rep.notes.append(f"search: {len(cases)} further end-to-end cases judged by Spec.decode/expect, {n} violations")
+    except RuntimeError as ex:   # the judge itself no longer evaluates: reported as no-failing-input-found
+        rep.notes.append("search could not run: " + str(ex)[-400:])
 
 
 def replay(data):
